@@ -347,6 +347,20 @@ func (c *caseRun) doTransition() {
 	if made {
 		c.sinceTransEnd = []string{after.String()}
 		c.lastTransPrev = before
+		if c.waits < 2 && c.r.Chance(1, 3) {
+			// somebody undoes the change at once: the polling scans see the same
+			// content before and after, so only the transition's own strobe can
+			// announce that something happened
+			c.doEdit(before)
+			c.counts["scenario:immediate-reversal"]++
+			c.waits++
+			time.Sleep(waitDuration)
+			c.log("W")
+			if !c.doCheck() {
+				c.bad("transition-without-signal", "no poll signal %v after a transition that changed the disk (and was undone at once)", waitDuration)
+			}
+			return
+		}
 		// a transition that changed the disk strobes the poll signal
 		ctx, cancel := context.WithTimeout(context.Background(), 5*time.Second)
 		c.ep.Poll(ctx)
@@ -497,8 +511,14 @@ func journalOracle(line string) string {
 		case tok == "Te1":
 			disk = target
 			since = []string{disk}
-			if i+3 >= len(f) || f[i+3] != "Q1" {
-				return "class=transition-without-signal"
+			// the next look at the signal must find it
+			for _, later := range f[i+3:] {
+				if later == "Q1" {
+					break
+				}
+				if later == "Q0" {
+					return "class=transition-without-signal"
+				}
 			}
 		case tok == "Q1":
 			signal = true
